@@ -31,6 +31,7 @@ for c in $(git log --format=%h --grep='^fix:'); do
       *"checks the list of callbacks under its lock"*) n=revert_invalidator_check_unlocked;;
       *"expired entry without details"*) n=revert_plain_expired;;
       *"ExpireAll keeps expiration time"*) n=revert_expireall_restamp;;
+      *"64-bit aligned on 32-bit platforms"*) n=revert_entry_alignment;;
       *) n=revert_$c;;
     esac
   fi
